@@ -10,6 +10,7 @@ import (
 
 	"github.com/luthersystems/elps/formatter"
 	"github.com/luthersystems/elps/lisp"
+	"github.com/luthersystems/elps/parser"
 	"github.com/luthersystems/elps/parser/lexer"
 	"github.com/luthersystems/elps/parser/rdparser"
 	"github.com/luthersystems/elps/parser/token"
@@ -155,6 +156,12 @@ func init() {
 			}
 			fexprs, ferr := rdparser.NewFormatting(token.NewScannerString("p", in.Text)).ParseProgram()
 			r["fmt"] = readerResult(fexprs, ferr)
+			// the same text through the readers an embedder gets (an io.Reader behind the scanner's fixed window): the
+			// strict reader of every Load* entry point and the format-preserving reader of the formatter
+			wexprs, werr := parser.NewReader().Read("w", strings.NewReader(in.Text))
+			r["strict_io"] = readerResult(wexprs, werr)
+			wf, wferr := parser.NewReader(parser.WithFormatPreserving()).Read("wf", strings.NewReader(in.Text))
+			r["fmt_io"] = readerResult(wf, wferr)
 			if err == nil {
 				// print -> read -> print
 				var printed []string
